@@ -1,6 +1,121 @@
-"""Per-property description of what the harnesses encode, their bounds and assumptions (goes into the evidence)."""
+"""Per-property description of what the harnesses encode, their bounds and assumptions (goes into the evidence
+and into MANIFEST.json)."""
+
+COMMON_INSTR = [
+    "one instruction = real Cpu::fetch + real Cpu::exec (through the guarded hook Cpu::vh_step), PC concrete per harness "
+    "(on-chip RAM H'FFCF20 in quick, additionally DRAM H'416900 in thorough)",
+    "Bus::read/Bus::write replaced by the footprint memory (harness/mem.rs) implementing the bus contract proved in C09; "
+    "any access outside the declared operand windows fails the `mem` aspect",
+    "Cpu::calc_state_with_addr replaced by a logging stub returning arbitrary costs < 40 (the cost function itself is C19)",
+    "instruction handlers that are not on the path of the form under test are replaced by ghosts (a ghost hit fails `route`)",
+    "anyhow replaced by an opaque-error model crate; std::fmt::format returns an empty string (message texts are outside every claim)",
+    "operand windows pairwise disjoint and disjoint from the instruction's own bytes (self-modifying / self-overlapping operands outside the claim)",
+]
 
 INFO = {
+    "C01": {
+        "functions": ["Cpu::fetch", "Cpu::exec", "Cpu::mov_b/mov_w/mov_l and every sub-handler", "read/write_{rn,ern,disp16,disp24,inc_ern,dec_ern,abs8,abs16,abs24}_{b,w,l}"],
+        "bounds": "one instruction per harness, no loop; all register fields, all 8 register contents (2^256), all data values, all 256 CCR values, "
+                  "every effective address in RAM/DRAM/vector area with arbitrary upper byte of the address register, all displacement / absolute address bits",
+        "outside": "operands in I/O register space; operands overlapping the instruction bytes; data register = address register in @ERn+/@-ERn forms (the property's own exclusions)",
+        "assumptions": COMMON_INSTR + ["encodings restricted to the manual's valid MOV encodings (reserved bits as printed)"],
+    },
+    "C02": {
+        "functions": ["Cpu::exec", "add_b/w/l(_imm,_rn)", "sub_b/w/l", "cmp_*", "addx_*", "neg_*", "inc_*", "dec_*", "adds*", "subs*", "mulxu_*", "divxu_*", "read/write_rn_*"],
+        "bounds": "one instruction per harness; both operands at full width (ADD.L/SUB.L/CMP.L over all 2^64 operand pairs), carry-in, all register fields, all CCR values; "
+                  "MULXU.W 16x16 and DIVXU.W 32/16 at full width; DIVXU under divisor != 0 and quotient fits",
+        "outside": "DIVXU with zero divisor / overflowing quotient (undefined in the manual, excluded by the property)",
+        "assumptions": COMMON_INSTR + ["DIVXU result checked through the Euclidean relation q*d+r = a, r < d on the emulator's output (unique solution)"],
+    },
+    "C03": {
+        "functions": ["Cpu::exec", "and_/or_/xor_{b,w,l}_{imm,rn}", "not_*", "extu_*", "shal/shar/shll/shlr/rotl/rotr/rotxl/rotxr _{b,w,l}"],
+        "bounds": "one instruction per harness; all operand values at full width (32-bit forms over all 2^32 / 2^64 values), all register fields, all CCR values",
+        "outside": "nothing inside one instruction",
+        "assumptions": COMMON_INSTR,
+    },
+    "C04": {
+        "functions": ["Cpu::exec", "bset/bclr/bnot/btst/bst/bist/bld/bild/band/biand/bor/bior/bxor/bixor x {rn, ern, abs}"],
+        "bounds": "one instruction per harness; operand byte (256), bit number (3-bit immediate or all 256 values of the bit-number register), C, all register fields, "
+                  "@ERd over every accessible address with arbitrary upper register byte, @aa:8 over the whole page",
+        "outside": "operands at port DDR/DR and timer registers (H'FFFF60-9F) as the property says",
+        "assumptions": COMMON_INSTR,
+    },
+    "C05": {
+        "functions": ["Cpu::exec", "bcc + 32 condition handlers", "pc_disp8/pc_disp16", "jmp_*", "bsr_*", "jsr_*", "rts", "write_dec_ern_l/read_inc_ern_l", "Cpu::fetch (symbolic PC lemma)"],
+        "bounds": "one instruction per harness (two for call->RTS round trips); condition number, all CCR values, every even displacement, every target register value, "
+                  "SP anywhere in RAM/DRAM/vector area with arbitrary upper byte; pc_disp8/16 and fetch with a symbolic PC (position independence)",
+        "outside": "call/return nesting deeper than one level is an induction over the single-step results (each holds from an arbitrary pre-state), not a solver run; "
+                   "branch targets that leave the 24-bit space; JSR @ER7",
+        "assumptions": COMMON_INSTR,
+    },
+    "C06": {
+        "functions": ["Cpu::exec", "trapa", "rte", "Cpu::interrupt", "write_dec_ern_l/read_inc_ern_l", "read_abs24_l"],
+        "bounds": "TRAPA #1-#3, interrupt vectors 1..=63, RTE; all CCR values, all vector contents (non-zero top byte included), SP anywhere in plain memory; "
+                  "entry->RTE round trips (two steps)",
+        "outside": "nesting deeper than one entry (induction over the single-step results); vectors >= 64",
+        "assumptions": COMMON_INSTR + ["CCR after entry may have UI set or not (the property allows both)"],
+    },
+    "C07": {
+        "functions": ["Cpu::exec (whole decoder)", "handlers the decoder routes the unimplemented encodings to (mov_l.rs, cmp_l.rs, stc.rs, mov_b.rs) kept real"],
+        "bounds": "every encoding of NOP, SLEEP, LDC (#imm, Rs, six .W memory forms), ANDC/ORC/XORC, SUBX, DAA, DAS, EXTS, MULXS/DIVXS, EEPMOV, MOVFPE/MOVTPE with all "
+                  "remaining opcode bits, all following words, all registers and all memory contents symbolic: execution must end in Err; implemented encodings are decided "
+                  "form by form in C01-C06/C08 (aspects route, pc, outcome)",
+        "outside": "bit patterns that are not H8/300H instructions at all (the property does not constrain them)",
+        "assumptions": COMMON_INSTR + ["memory: every mapped read returns an arbitrary byte"],
+    },
+    "C08": {
+        "functions": ["get_addr_ern", "get_addr_disp16", "get_addr_disp24", "get_addr_abs8", "get_addr_abs16", "stc_w_* / stc_abs16 / stc_abs24",
+                      "all MOV memory forms, bit-op @ERd/@aa:8 representatives, JMP/JSR @@aa:8, BSR, RTS, RTE, TRAPA (footprint `mem` and `regs` aspects)"],
+        "bounds": "pure helpers: every base (2^32), displacement (2^16 / 2^24) and aa value; instruction level: one instruction, address register fully symbolic including the upper byte",
+        "outside": "STC's data layout (not part of any property)",
+        "assumptions": COMMON_INSTR,
+    },
+    "C09": {
+        "functions": ["Bus::read", "Bus::write (real arrays)", "Cpu::read_abs24_{b,w,l}", "Cpu::write_abs24_{b,w,l}"],
+        "bounds": "read classification: every 32-bit address; writes at an enumerated boundary set of 48 concrete addresses (both ends +-1 of every region, interior points, "
+                  "addresses >= 2^24 that would alias) with symbolic values in two rounds, followed by ONE probe read at a fully symbolic 32-bit address "
+                  "(for the DRAM group the probe is an enumerated set of 64 concrete addresses); 16/32-bit composition at the same boundary set",
+        "outside": "write address fully symbolic (CBMC bit-blasts the 2 MiB DRAM array: out of memory, measured); port DDR/DR registers (C16)",
+        "assumptions": ["no stub at all on the bus", "fresh bus from Cpu::new() (all zero) plus the harness's own writes"],
+    },
+    "C10": {
+        "functions": ["Cpu::try_interrupt", "Cpu::interrupt", "InterruptController::request_interrupt", "VecDeque<u8> push_back/pop_front"],
+        "bounds": "one boundary step from a pending queue of length 0,1,2,3 (one harness each) with arbitrary vectors 1..=63, arbitrary CCR, PC, SP; FIFO append of 5 requests",
+        "outside": "queues longer than 3 (induction over boundary steps from the arbitrary-queue pre-state); 'only at instruction boundaries' is the call order checked in C13",
+        "assumptions": ["footprint memory as in C01-C06"],
+    },
+    "C13": {
+        "functions": ["Cpu::run (real)", "Cpu::init_registers", "Cpu::print_er"],
+        "bounds": "4 loop iterations; each scripted instruction outcome (Ok/Err), charged states (0..=85 and 0..=255) and next PC symbolic; exit address, start address, initial state sum, host clock values symbolic",
+        "outside": "the `sync:` message clause (needs >= 2615 iterations of a loop whose counter is a local variable); whole programs beyond 4 instructions; wall-clock pacing (sleep branch needs >= 27 iterations)",
+        "assumptions": ["Cpu::fetch, Cpu::exec, Cpu::try_interrupt, ModuleManager::update_modules, Cpu::send_message replaced by scripted/logging stubs",
+                        "Instant::now / Instant::elapsed / SpinSleeper::sleep / SpinSleeper::default replaced by stubs returning arbitrary values (determinism = no assertion mentions them)"],
+    },
+    "C14": {
+        "functions": ["Cpu::trapa", "Cpu::trapa_emulate_mes2", "read/write_abs24_l", "read_abs24_b", "String::from_utf8"],
+        "bounds": "write: length 0..=4 bytes (unwind 18), every valid UTF-8 content of that length, argument block and buffer anywhere in plain memory; set_handler: every 32-bit vector number, 24-bit handler address; any other call number",
+        "outside": "lengths > 4 (the copy loop is uniform); the console print! (not observable); the text of the `stdout:` line (format stubbed: the string handed to send_stdout_message is compared)",
+        "assumptions": COMMON_INSTR + ["Cpu::send_stdout_message replaced by a recording stub under Kani (natively a channel-backed socket captures the real message)", "ER1 and the buffer address below 2^24"],
+    },
+    "C15": {
+        "functions": ["Cpu::fetch", "Cpu::exec", "every instruction handler (one harness per source file under src/cpu/instruction)", "Cpu::interrupt", "addressing-mode helpers"],
+        "bounds": "one instruction with ALL opcode bits, registers, CCR and memory bytes symbolic and no operand assumption; decided = no failed Kani check (panic, unwrap, arithmetic/shift overflow, "
+                  "index, division) in the emulator's source; PC placements: RAM, DRAM start/end, vector area; TRAPA write length <= 4",
+        "outside": "control-channel lines (C18); run()'s own arithmetic is covered by C13's harness; optimized-build verdict is derived (release removes only overflow aborts) and confirmed by native replay in both profiles",
+        "assumptions": COMMON_INSTR[1:],
+    },
+    "C16": {
+        "functions": ["Bus::on_write_ddr", "Bus::on_write_dr", "Bus::write_port", "Bus::write / Bus::read (real, concrete port addresses)"],
+        "bounds": "one operation from an arbitrary (DDR, latch, pin) state on a symbolic port 1..=11 with a second symbolic port untouched; histories of 3 operations from reset on ports 1 and 11 (6 in thorough) through the real Bus::write",
+        "outside": "histories longer than 3 (covered by the single-operation step from an arbitrary state)",
+        "assumptions": ["Bus::send_io_port_value replaced by a recording stub under Kani (natively the real mpsc message is parsed)"],
+    },
+    "C17": {
+        "functions": ["Timer8_0::update_timer8_0", "Timer8_0::update_tcr", "ModuleManager::write_registers/update_modules", "Bus::write (TCR0 address)"],
+        "bounds": "one update with charge 1..=64 (quick) / 1..=255 (thorough) from an arbitrary TCR, TCNT, TCORA, TCORB, TCSR and residual < divisor; unwind 42 (<= 33 ticks); TCR rewrite for all old/new values; partition lemma for all residuals and charges",
+        "outside": "external / cascaded clock selects 4-7; simultaneous compare matches with a clear source (the property's exclusions); CPU writes to TCNT/TCORx/TCSR are plain stores (C09)",
+        "assumptions": ["timer residual set through the guarded accessor", "registers poked directly into Bus::io_registrs2"],
+    },
     "C19": {
         "functions": ["Cpu::calc_state_with_addr", "Cpu::calc_state", "Cpu::get_wait_state", "Bus::get_area_index",
                       "Bus::check_dram_area", "Bus::read (real, five constant register addresses)"],
@@ -10,6 +125,13 @@ INFO = {
                    "(excluded by the property); addresses >= 2^24; counts > 5",
         "assumptions": ["bus-controller registers are poked directly into Bus::io_registrs1 (no Bus::write side effects)",
                         "reference cost table transcribed from the property statement / H8/3069F bus controller chapter"],
+    },
+    "C20": {
+        "functions": ["every implemented instruction form's handler (same harness bodies as C01-C06/C08 in cycle-mix mode)"],
+        "bounds": "one instruction per harness, all operand values symbolic; the ghost cost function logs (kind,count,address) and returns arbitrary costs; decided: the logged multiset equals the manual's "
+                  "advanced-mode row with each entry in the cost class (area / on-chip RAM / I/O block) of the architectural address, and the instruction returns exactly the sum of the returned costs",
+        "outside": "TRAPA #0 (no manual row); operands in I/O register space",
+        "assumptions": COMMON_INSTR + ["cycle table transcribed from the H8/300H programming manual (advanced mode)"],
     },
 }
 
